@@ -363,3 +363,60 @@ pub fn harnesses() -> Vec<H> {
             bound: "SliceRegion<MirrorRegion<u8>>: triples of u8 vectors of length 0..2 (native: bytes over {0,1,255}), each side region-backed from two different regions or owned-borrowed: ==, partial_cmp, cmp equal those of the Vecs; reflexive, antisymmetric, transitive", kani: false },
     ]
 }
+
+// ---------------------------------------------------------------------------------------------------- long random index sequences (thorough tier)
+// args: kind, then 14 operations: value k < 12 -> push ALPHA[k]; 12 -> clear; 13 -> extend with the next two values' worth
+fn pre_ixl(v: &[u64]) -> bool {
+    v[0] < 3 && v[1..].iter().all(|x| *x < 14)
+}
+fn doms_ixl() -> Vec<Vec<u64>> {
+    let mut d = vec![range(3)];
+    for _ in 0..14 {
+        d.push(range(14));
+    }
+    d
+}
+fn ixl_body<C: IndexContainer<usize> + Clone>(v: &[u64]) {
+    let mut c = C::default();
+    let mut model: Vec<usize> = Vec::new();
+    let ops = &v[1..];
+    let mut i = 0;
+    while i < ops.len() {
+        match ops[i] {
+            12 => {
+                c.clear();
+                model.clear();
+            }
+            13 => {
+                let batch: Vec<usize> = ops[i + 1..].iter().take(2).filter(|k| **k < 12).map(|k| ALPHA[*k as usize] as usize).collect();
+                c.extend(batch.as_slice().iter().copied());
+                Extend::extend(&mut model, batch);
+                i += 2;
+            }
+            k => {
+                c.push(ALPHA[k as usize] as usize);
+                model.push(ALPHA[k as usize] as usize);
+            }
+        }
+        i += 1;
+        vassert!(c.len() == model.len() && c.is_empty() == model.is_empty(), "VF:index.len");
+        for (j, w) in model.as_slice().iter().enumerate() {
+            vassert!(c.index(j) == *w, "VF:index.earlier_entry_changed");
+        }
+        vassert!(c.iter().eq(model.as_slice().iter().copied()), "VF:index.iter");
+    }
+    let used: usize = collect_heap(|cb| c.heap_size(cb)).iter().map(|p| p.0).sum();
+    let _ = used;
+}
+fn run_ixl(v: &[u64]) {
+    match v[0] {
+        0 => ixl_body::<IndexOptimized>(v),
+        1 => ixl_body::<IndexList<Vec<u32>, Vec<u64>>>(v),
+        _ => ixl_body::<Vec<usize>>(v),
+    }
+}
+
+pub fn harnesses_long() -> Vec<H> {
+    vec![H { name: "index_long_full", props: &["C05", "C02", "C03", "C08"], nargs: 15, pre: pre_ixl, doms: doms_ixl, run: run_ixl, panic_ok: false,
+        bound: "IndexOptimized, IndexList, Vec<usize>: seeded random histories of 14 operations (push over the 12-value transition alphabet, clear, extend) against a Vec model; index/len/iter after every operation; sampled, not exhaustive (thorough tier)", kani: false }]
+}
